@@ -16,6 +16,7 @@ EnfC05 == {"C05"}
 EnfC07 == {"C07"}
 EnfC10 == {"C10"}
 EnfC11 == {"C11"}
+EnfC16 == {"C16"}
 EnfAll == {"C03", "C04", "C05", "C07", "C10", "C11", "C14"}
 
 Producers == {"var", "neg", "and", "or", "xor", "iff", "ite", "cond", "exists", "compose", "cnf"}
